@@ -143,3 +143,45 @@ def unit_table_facts(tier, seed):
 
 unit_table_facts.props = ['C05']
 CLOSED = [unit_table_facts]
+
+# ---- C12: candidate selection of the unit extractor keeps the reported entities disjoint
+UX = NWU + 'number_with_unit/extractors.py::NumberWithUnitExtractor.'
+
+
+def _cands(n, with_number=False):
+    params = {}
+    for i in range(n):
+        params[f's{i}'] = Int(0)
+        params[f'l{i}'] = Int(1)
+        params[f'p{i}'] = Bool()
+        if with_number:
+            params[f'n{i}'] = Int(0)
+    data = (lambda i: _ER(start=Expr(f'n{i}'), length=Int(1))) if with_number else (lambda i: Const(None))
+    for i in range(n):
+        params[f'e{i}'] = _ER(start=Expr(f's{i}'), length=Expr(f'l{i}'), data=data(i))
+    params['ers'] = Expr('[' + ', '.join(f'e{i}' for i in range(n)) + ']')
+    params['unit_is_prefix'] = Expr('[' + ', '.join(f'p{i}' for i in range(n)) + ']')
+    params['source'] = Str()
+    params['self'] = Rec(NWU + 'number_with_unit/extractors.py::NumberWithUnitExtractor', {})
+    req = [f's{i}' + f' + l{i} <= len(source)' for i in range(n)]
+    req += [f's{i} <= s{i + 1} and s{i} + l{i} <= s{i + 1} + l{i + 1}' for i in range(n - 1)]
+    if with_number:
+        req += [f'n{i} <= l{i} and len(e{i}.text) == l{i}' for i in range(n)]
+    return params, req
+
+
+def _select(n, with_number=False):
+    params, req = _cands(n, with_number)
+    return Contract(f'c12.select_candidates.{n}' + ('.with_number_spans' if with_number else ''), UX + '_select_candidates', ['C12', 'C05'],
+                    unroll=8, params=params, requires=req,
+                    ensures=[('selected-entities-share-no-character',
+                              'forall(lambda a, b: implies(a < b, result[a].start + result[a].length <= result[b].start), '
+                              '0, len(result), 0, len(result))'),
+                             ('selected-entities-are-candidates',
+                              'forall(lambda a: exists(lambda j: result[a].start == ers[j].start and result[a].length == ers[j].length, 0, %d), '
+                              '0, len(result))' % n)],
+                    note=f'{n} candidates with arbitrary spans, ordered by start and by end (as the extractor builds them: one '
+                         'candidate per number match, in order); prefix/suffix flags arbitrary')
+
+
+CONTRACTS += [_select(2), _select(3), _select(2, True)]
